@@ -187,7 +187,8 @@ def make_case(tags, defs, main, globs=(), enum=(), fuel=4000):
             ["globals"] + [[n, v] for n, v in globs],
             ["main", main],
             ["fuel", fuel]]
-    return dict(sx=sx(case), impl=dict(src=src), tags=tags)
+    return dict(sx=sx(case), impl=dict(src=src), tags=tags,
+                ast=dict(defs=list(defs), main=main, globs=list(globs), enum=list(enum), fuel=fuel))
 
 # ---------------------------------------------------------------- helpers
 def ordered_subsets(pool, maxk):
@@ -680,4 +681,18 @@ def generate(tier, rng):
             yield c
 
 def shrink(case):
-    return []
+    """smaller variants of a failing case: one arm removed from the main match or from a function"""
+    a = case.get("ast")
+    if not a:
+        return
+    tags = dict(case.get("tags") or {}, shrunk=1)
+    main = a["main"]
+    if main[0] == "match" and len(main) > 3:
+        for i in range(2, len(main)):
+            yield make_case(tags, a["defs"], main[:i] + main[i + 1:], a["globs"], a["enum"], a["fuel"])
+    for di, f in enumerate(a["defs"]):
+        if len(f) > 5:
+            for i in range(4, len(f)):
+                defs = list(a["defs"])
+                defs[di] = f[:i] + f[i + 1:]
+                yield make_case(tags, defs, main, a["globs"], a["enum"], a["fuel"])
